@@ -221,7 +221,7 @@ func shapeParts(f *facts, name string, p *pkg, file, recv, fn string) {
 		return false
 	}
 	walk = func(part string, root ast.Node) {
-		ast.Inspect(root, func(x ast.Node) bool {
+		inspectBlocks(root, func(x ast.Node) bool {
 			if x == root {
 				return true
 			}
@@ -258,7 +258,7 @@ func shapeParts(f *facts, name string, p *pkg, file, recv, fn string) {
 			}
 			parts[part] = append(parts[part], shapeNode(p, x, false)...)
 			return true
-		})
+		}, func() { parts[part] = append(parts[part], "}") })
 	}
 	walk("head", fd.Body)
 	keys := make([]string, 0, len(parts))
@@ -332,15 +332,34 @@ func shapeNode(p *pkg, x ast.Node, full bool) []string {
 	return out
 }
 
+// inspectBlocks is ast.Inspect that also reports the END of every block statement (so that a statement moved into
+// or out of an `if` / `for` / `case` body changes the skeleton although the order of the statements stays the same)
+func inspectBlocks(root ast.Node, pre func(ast.Node) bool, blockEnd func()) {
+	var stack []ast.Node
+	ast.Inspect(root, func(x ast.Node) bool {
+		if x == nil {
+			top := stack[len(stack)-1]
+			stack = stack[:len(stack)-1]
+			if _, ok := top.(*ast.BlockStmt); ok && top != root {
+				blockEnd()
+			}
+			return true
+		}
+		if !pre(x) {
+			return false // (Inspect does not call f(nil) for a node whose children are skipped)
+		}
+		stack = append(stack, x)
+		return true
+	})
+}
+
 // shapeOf: the skeleton of a whole subtree
 func shapeOf(p *pkg, root ast.Node, full bool) []string {
 	var out []string
-	ast.Inspect(root, func(x ast.Node) bool {
-		if x != nil {
-			out = append(out, shapeNode(p, x, full)...)
-		}
+	inspectBlocks(root, func(x ast.Node) bool {
+		out = append(out, shapeNode(p, x, full)...)
 		return true
-	})
+	}, func() { out = append(out, "}") })
 	return out
 }
 
@@ -351,64 +370,7 @@ func shapeFactX(f *facts, name string, p *pkg, file, recv, fn string, full bool)
 		f.errs = append(f.errs, name+": function not found")
 		return
 	}
-	var out []string
-	ast.Inspect(fd.Body, func(x ast.Node) bool {
-		switch n := x.(type) {
-		case *ast.IfStmt:
-			out = append(out, "if "+p.str(n.Cond))
-		case *ast.ForStmt:
-			if n.Cond != nil {
-				out = append(out, "for "+p.str(n.Cond))
-			} else {
-				out = append(out, "for")
-			}
-		case *ast.RangeStmt:
-			out = append(out, "range "+p.str(n.X))
-		case *ast.CaseClause:
-			if len(n.List) == 0 {
-				out = append(out, "default")
-			} else {
-				var cs []string
-				for _, e := range n.List {
-					cs = append(cs, p.str(e))
-				}
-				out = append(out, "case "+strings.Join(cs, ", "))
-			}
-		case *ast.CommClause:
-			if n.Comm == nil {
-				out = append(out, "select-default")
-			} else {
-				out = append(out, "select "+oneLine(p.str(n.Comm)))
-			}
-		case *ast.CallExpr:
-			if _, ok := n.Fun.(*ast.FuncLit); ok {
-				out = append(out, "call <func literal>")
-			} else {
-				out = append(out, "call "+p.str(n.Fun))
-			}
-		case *ast.GoStmt:
-			out = append(out, "go")
-		case *ast.DeferStmt:
-			out = append(out, "defer")
-		case *ast.ReturnStmt:
-			if full {
-				out = append(out, oneLine(p.str(n)))
-			} else {
-				out = append(out, "return")
-			}
-		case *ast.BranchStmt:
-			out = append(out, n.Tok.String()+" "+labelOf(n))
-		case *ast.IncDecStmt:
-			out = append(out, p.str(n.X)+n.Tok.String())
-		case *ast.AssignStmt:
-			if full {
-				out = append(out, oneLine(p.str(n)))
-			} else {
-				out = append(out, oneLine(p.str(n.Lhs[0]))+" "+n.Tok.String())
-			}
-		}
-		return true
-	})
+	out := shapeOf(p, fd.Body, full)
 	f.strList(name, normAll(out, localNames(fd)))
 }
 
